@@ -16,7 +16,7 @@ use glaredb_core::buffer::buffer_manager::DefaultBufferManager;
 use half::f16;
 use serde_json::{Value, json};
 
-use crate::value;
+use gverif::value;
 
 fn all_values(id: DataTypeId, bits: u32) -> Option<Vec<ScalarValue>> {
     let n: u32 = 1 << bits;
